@@ -36,3 +36,23 @@ Qed.
 Theorem read_from_socket_stays_in_family c e : e <> IOther ->
   match snd (step c (Some e)) with RReturn => False | RRaiseFailed _ => True | RPropagate e' => e' = e /\ e' <> IOther end.
 Proof. intros H. destruct e; cbn; auto; congruence. Qed.
+
+(* ---------------------------------------------------------------- _map_response *)
+From Coq Require Import ZArith String.
+From GW Require Import Prelude PyStr PyFloat Sensors.
+
+Definition raised_of (e : exn) : option pyraised :=
+  match e with EValue => Some RValue | EIndex => Some RIndex | EOverflow => Some ROverflow | EKey => Some RKey | EZeroDiv => Some RZeroDiv
+             | EType => Some RType | ENotImpl => Some RNotImpl | EAttr => Some RAttr | EPartial _ _ | ERejected _ => None end.
+
+(* the entry _map_response stores for one sensor, with the except clause as generated from the current source *)
+Definition map_entry_gen (data : list Z) (pos : posfn) (s : sensor) : res val :=
+  match sensor_read data pos s with
+  | Ok v => Ok v
+  | Exc e => match raised_of e with
+             | Some r => if becomes_none map_response_catches r then Ok VNone else Exc e
+             | None => Exc e end
+  end.
+
+Theorem map_response_refined data pos s : map_entry_gen data pos s = map_entry data pos s.
+Proof. unfold map_entry_gen, map_entry. destruct (sensor_read data pos s) as [v|[]]; reflexivity. Qed.
